@@ -456,6 +456,9 @@ func (fgen *funcGen) irCatchPadInst(new ir.Instruction, old *ast.CatchPadInst) e
 		panic(fmt.Errorf("invalid IR instruction for AST instruction; expected *ir.InstCatchPad, got %T", new))
 	}
 	// Exception scope.
+	if err := checkIdentRef(old.CatchSwitch().Text()); err != nil {
+		return err
+	}
 	ident := localIdent(old.CatchSwitch())
 	v, ok := fgen.locals[ident]
 	if !ok {
